@@ -81,6 +81,11 @@ type Config struct {
 	Stats    stats.Interface
 
 	Upstream *env.Upstream
+
+	// OnModified, if set, is called by every ConfigModified callback of the
+	// node's components (in home this is where the configuration is collected
+	// from all components again and written to disk).
+	OnModified func()
 }
 
 // Node is an assembled node.
@@ -182,7 +187,13 @@ func New(cfg *Config) (n *Node, err error) {
 	fc := cfg.Filtering
 	fc.DataDir = cfg.Dir
 	fc.HTTPRegister = n.Mux.Register
-	fc.ConfigModified = func() { n.Modified.Add(1) }
+	modified := func() {
+		n.Modified.Add(1)
+		if cfg.OnModified != nil {
+			cfg.OnModified()
+		}
+	}
+	fc.ConfigModified = modified
 	fc.ApplyClientFiltering = n.Clients.ApplyClientFiltering
 	fc.SafeBrowsingChecker = cfg.SafeBrowsing
 	fc.ParentalControlChecker = cfg.Parental
@@ -257,7 +268,7 @@ func New(cfg *Config) (n *Node, err error) {
 		Config:          dc,
 		TLSConf:         &dnsforward.TLSConfig{ServerName: cfg.ServerName, StrictSNICheck: cfg.StrictSNI},
 		UpstreamTimeout: cfg.UpTimeout,
-		ConfigModified:  func() { n.Modified.Add(1) },
+		ConfigModified:  modified,
 		HTTPRegister:    n.Mux.Register,
 		ServePlainDNS:   true,
 		UsePrivateRDNS:  false,
